@@ -31,6 +31,7 @@ func init() {
 		Rule{ID: "R14d", Doc: "a pooled connection reports Closed exactly when it is closed (the pool forgets, without closing, what reports closed; shared with C14)", Floor: 5, AllVariants: true, Run: r14d},
 		Rule{ID: "R17d", Doc: "TLS dials hand the dial context to the handshake (Close and the dial timeout reach a stalled handshake only through it; shared with C17)", Floor: 3, Run: r17d},
 		Rule{ID: "R18i", Doc: "Close releases the transport closer on every path", Floor: 2, AllVariants: true, Run: r18i},
+		Rule{ID: "R18j", Doc: "a composite's Close closes every closer field it holds", Floor: 5, AllVariants: true, Run: r18j},
 	)
 }
 
